@@ -41,6 +41,17 @@ def main():
             if os.path.isdir(os.path.join(wt, os.path.dirname(cand))) and not cand.startswith("mutants"):
                 place = cand; break
         if place is None:
+            # "cp …/zz_demo_x_test.go <dir>/"  or  "place it in `<dir>/`"
+            for pat in [r"cp\s+\S*" + re.escape(base) + r"\s+(\S+?)/?\s*$", r"place[sd]? (?:it )?(?:in|at|under) `?([A-Za-z0-9_./-]+?)/?`"]:
+                for cand in re.findall(pat, readme, re.M):
+                    cand = cand.lstrip("./")
+                    cand = re.sub(r"^.*?(ecdsa|eddsa|crypto|common|tss)(/|$)", r"\1\2", cand)
+                    if cand.endswith(base):
+                        cand = os.path.dirname(cand)
+                    if cand and os.path.isdir(os.path.join(wt, cand)):
+                        place = cand + "/" + base; break
+                if place: break
+        if place is None:
             # fall back: package clause of the demo
             pk = re.search(r"^package (\w+)", open(demo).read(), re.M).group(1).replace("_test", "")
             for d in ["ecdsa/"+pk, "eddsa/"+pk, "crypto/"+pk, pk, "crypto"]:
